@@ -220,3 +220,42 @@ theorem classify_retry_kind (c : Cfg) (last : Bool) (k : Kind) (h : (classify c 
     simp_all [classify, Step.isRetry]
 
 end Retry
+
+namespace Retry
+
+/-- attempts that leave the retry-relevant keys alone leave the dict as it was -/
+theorem foldl_effect_id (atts : List Attempt) (store : Params) (h : ∀ a ∈ atts, ∀ s, a.effect s = s) :
+    atts.foldl (fun s a => a.effect s) store = store := by
+  induction atts generalizing store with
+  | nil => rfl
+  | cons a rest ih =>
+    simp only [List.foldl_cons]
+    rw [h a (by simp) store]
+    exact ih store (fun b hb => h b (by simp [hb]))
+
+theorem invoke_store_id (wrapped us : Bool) (store : Params) (atts : List Attempt)
+    (h : ∀ a ∈ atts, ∀ s, a.effect s = s) : (invoke wrapped us store atts).2 = store := by
+  unfold invoke
+  exact foldl_effect_id _ store (fun a ha => h a (List.mem_of_mem_take ha))
+
+theorem runSeq_independent (wrapped us shared : Bool) (p0 : Params) (invs : List (List Attempt))
+    (h : shared = false ∨ ∀ inv ∈ invs, ∀ a ∈ inv, ∀ s, a.effect s = s) :
+    runSeq wrapped us shared p0 p0 invs = invs.map (fun inv => runRegistered wrapped us p0 (inv.map (·.out))) := by
+  induction invs with
+  | nil => rfl
+  | cons inv rest ih =>
+    simp only [runSeq, List.map_cons]
+    have hnext : (if shared then (invoke wrapped us p0 inv).2 else p0) = p0 := by
+      rcases h with h | h
+      · simp [h]
+      · rw [invoke_store_id wrapped us p0 inv (h inv (by simp))]; simp
+    rw [hnext, ih (by
+      rcases h with h | h
+      · exact Or.inl h
+      · exact Or.inr (fun i hi => h i (by simp [hi])))]
+    rfl
+
+theorem update_none_apply (p : Params) : (Update.mk none none none none none).apply p = p := by
+  cases p; rfl
+
+end Retry
